@@ -470,8 +470,6 @@ def fam_of(mode):
 def comm_jobs(ctx, rng):
     """search_information, path_transitivity, rout_efficiency on one shared stream of inputs"""
     jobs = []
-    tr = {"bin": "none", "len": "none", "inv": "inv", "log": "log"}
-
     def trio(K, mode, src, und, si=True, pt=True, rout=True):
         v = variant(rng, fam_of(mode))
         if v["dtype"] in ("float32", "bool", "uint8"):
@@ -480,12 +478,12 @@ def comm_jobs(ctx, rng):
             v["dtype"] = "int64" if mode in ("bin", "len") else "float64"
         if si:
             for mem in (0, 1):
-                jobs.append(J("search_information[%s,%s]" % (tr[mode], "memory" if mem else "memoryless"),
+                jobs.append(J("search_information[memory]" if mem else "search_information",
                               "si", src, K=K, mode=mode, mem=mem, **v))
         if pt and und:
-            jobs.append(J("path_transitivity[%s]" % tr[mode], "pt", src, K=K, mode=mode, **v))
+            jobs.append(J("path_transitivity", "pt", src, K=K, mode=mode, **v))
         if rout:
-            jobs.append(J("rout_efficiency[%s]" % tr[mode], "rout", src, K=K, mode=mode, **v))
+            jobs.append(J("rout_efficiency", "rout", src, K=K, mode=mode, **v))
     for n in (3, 4):
         for e in inputs.model_graphs(ctx, "und", n):
             trio(code_matrix(rng, n, e, True, "bin"), "bin", "model-und%d" % n, True)
@@ -564,8 +562,12 @@ def eff_jobs(ctx, rng):
 
 def build_jobs(ctx):
     rng = random.Random(ctx.seed)
-    return findpaths_jobs(ctx, rng) + cycprob_jobs(ctx, rng) + bfs_jobs(ctx, rng) + comm_jobs(ctx, rng) + \
+    jobs = findpaths_jobs(ctx, rng) + cycprob_jobs(ctx, rng) + bfs_jobs(ctx, rng) + comm_jobs(ctx, rng) + \
         eff_jobs(ctx, rng)
+    only = os.environ.get("VERIF_X04_ONLY")        # developer convenience (mutant runs), never set by `check`
+    if only:
+        jobs = [j for j in jobs if j["kind"] in only.split(",")]
+    return jobs
 
 
 # ------------------------------------------------------------------ models
